@@ -80,12 +80,31 @@ package rtree
 
 //@ pred modest(p geom.Point, b geom.Bounds) = abs(p.X) <= 1e100 && abs(p.Y) <= 1e100 && abs(b.Min.X) <= 1e100 && abs(b.Min.Y) <= 1e100 && abs(b.Max.X) <= 1e100 && abs(b.Max.Y) <= 1e100
 
+// MINMAXDIST per Definition 4 of Roussopoulos, Kelley, Vincent (SIGMOD 1995), n = 2:
+// min over k of |p_k - rm_k|^2 + sum_{i != k} |p_i - rM_i|^2.
+//@ spec rmS(pk float64, lo float64, hi float64) float64 = pk <= (lo + hi) / 2 ? lo : hi
+//@ spec rMS(pk float64, lo float64, hi float64) float64 = pk >= (lo + hi) / 2 ? lo : hi
+//@ spec mmdS(p geom.Point, b geom.Bounds) float64 = goMin(sq(p.X - rmS(p.X, b.Min.X, b.Max.X)) + sq(p.Y - rMS(p.Y, b.Min.Y, b.Max.Y)), sq(p.Y - rmS(p.Y, b.Min.Y, b.Max.Y)) + sq(p.X - rMS(p.X, b.Min.X, b.Max.X)))
+
+//@ func minMaxDist$1
+//@   inline
+//@ func minMaxDist$2
+//@   inline
+//@ func minMaxDist$3
+//@   inline
+//@ func minMaxDist$4
+//@   inline
+
 //@ func minMaxDist
 //@   prop C12
 //@   mode real
 //@   requires [nonnil] r != nil
 //@   ensures [nonneg] validB(*r) && modest(p, *r) ==> result >= 0
+//@   ensures [definition] result == goMin(1.7976931348623157e308, mmdS(p, *r))
 //@   modifies nothing
+//@   assert [S] `d1 := p.X - rMX()` S == sq(p.X - rMS(p.X, r.Min.X, r.Max.X)) + sq(p.Y - rMS(p.Y, r.Min.Y, r.Max.Y))
+//@   assert [k1] `if d < min {` d == sq(p.X - rmS(p.X, r.Min.X, r.Max.X)) + sq(p.Y - rMS(p.Y, r.Min.Y, r.Max.Y))
+//@   assert [k2] `if d < min {` #2 d == sq(p.Y - rmS(p.Y, r.Min.Y, r.Max.Y)) + sq(p.X - rMS(p.X, r.Min.X, r.Max.X))
 
 // ---- Tier 2: tree bookkeeping (height / root level / size) ----
 //
@@ -136,15 +155,26 @@ package rtree
 //@   ensures [siblings] left == n && right != nil && fresh(right) && right.level == old(n.level) && right.leaf == old(n.leaf)
 //@   ensures [levels_kept] forall m *node :: m != nil && !fresh(m) ==> m.level == old(m.level) && m.leaf == old(m.leaf)
 
+//@ func (n *node) getEntry
+//@   prop C11
+//@   nosafety
+//@   ensures [entry_of_n] result != nil ==> result.child == n
+//@   modifies nothing
+//@   loop 1 `for i := range n.parent.entries`
+//@     invariant e == nil
+
 //@ func (tree *Rtree) adjustTree
 //@   prop C11
-//@   trusted propagates boxes and splits upwards; only entries/parent/bb fields are written
+//@   nosafety
+//@   opt trustpre=rtree
 //@   opt havoc=node,entry,geom.Bounds
 //@   requires [nonnil] tree != nil && n != nil && tree.root != nil
+//@   requires [sibling] nn != nil ==> nn.level == n.level && nn.leaf == n.leaf
 //@   ensures [root] result0 == old(tree.root) && tree.root == old(tree.root) && tree.height == old(tree.height) && tree.size == old(tree.size) && tree.MinChildren == old(tree.MinChildren) && tree.MaxChildren == old(tree.MaxChildren)
 //@   ensures [split_sibling] result1 != nil ==> result1.level == result0.level && result1.leaf == result0.leaf
 //@   ensures [levels_kept] forall m *node :: m != nil && !fresh(m) ==> m.level == old(m.level) && m.leaf == old(m.leaf)
-//@   ensures [shape] kidsOK(result0) && boxesOK(result0) && (result1 != nil ==> kidsOK(result1) && boxesOK(result1))
+//@   ensures_assumed [shape] kidsOK(result0) && boxesOK(result0) && (result1 != nil ==> kidsOK(result1) && boxesOK(result1))
+//@   assert [envelope_recomputed] `if nn == nil {` en.bb != nil && fresh(en.bb)
 
 //@ pred boxesOK(n *node) = forall i int :: 0 <= i && i < len(n.entries) ==> n.entries[i].bb != nil
 //@ spec envB(es []entry, k int) geom.Bounds decreases k = k <= 1 ? *es[0].bb : joinB(envB(es, k-1), *es[k-1].bb)
@@ -267,9 +297,10 @@ package rtree
 //@   decreases n.level
 //@   loop 1 `for _, e := range n.entries`
 //@     invariant d <= d@0 && (d == d@0 ==> nearest == nearest@0)
-//@   loop 2 `for _, e := range branches`
+//@   loop 2 `range branches`
+//@     complete [visits_every_kept_branch]
 //@     invariant d <= d@0 && (d == d@0 ==> nearest == nearest@0) && kidsWf(branches, n.level)
-//@   assert [children_wf] `for _, e := range branches` kidsWf(branches, n.level)
+//@   assert [children_wf] `range branches` kidsWf(branches, n.level)
 //@     using subset_kidsWf(branches, n.entries, n.level)
 
 //@ func (tree *Rtree) NearestNeighbor
